@@ -978,7 +978,7 @@ impl WmoWriter {
             0
         };
 
-        let total_size = 32 + vertices_size + tile_flags_size; // 32 bytes for header
+        let total_size = 40 + vertices_size + tile_flags_size; // 40 bytes for header (4 words + 6 floats)
 
         let header = ChunkHeader {
             id: chunks::MLIQ,
